@@ -378,6 +378,19 @@ func (kc *kernelCtx) runFunc0(b *Block) *Unit {
 		if cc := b.first("calls"); cc != nil {
 			sameCalls = strings.Join(strings.Fields(cc.Text), " ") == strings.Join(callFingerprint(fn), " ")
 		}
+		if pc := b.first("params"); pc != nil && sameCalls {
+			// and it still has the parameters it had (a renamed parameter is a renaming, not a dropped capture)
+			var ps []string
+			for _, prm := range fn.Params {
+				ps = append(ps, prm.Name())
+			}
+			if len(ps) == 0 {
+				ps = []string{"-"}
+			}
+			sameCalls = strings.Join(strings.Fields(pc.Text), " ") == strings.Join(ps, " ")
+		} else {
+			sameCalls = false
+		}
 		if top := outermost(fn); top != fn && kc.outerFallback && sameCalls {
 			for n, t := range cellTypes(top) {
 				if !have[n] {
